@@ -92,21 +92,29 @@ func runC20(c *Ctx) {
 				c.R.Unk(rule, key, cfg, "", "constant missing")
 				continue
 			}
-			blk := tbl[kv]
-			if blk == nil {
-				c.R.Bad(rule, key, cfg, p.Pos(add.Pos()), "Interval.Add has no case for this scale")
-				continue
-			}
+			coef := func(v ssa.Value) (int64, bool, bool) { return coefOfValue(v, 0) }
 			var call *ssa.Call
-			for _, in := range blk.Instrs {
-				if cl, ok := in.(*ssa.Call); ok {
-					if f := core.CalleeFunc(cl); f != nil && (isTimeMethod("Add")(f) || isTimeMethod("AddDate")(f)) {
-						call = cl
+			if blk := tbl[kv]; blk != nil {
+				for _, in := range blk.Instrs {
+					if cl, ok := in.(*ssa.Call); ok {
+						if f := core.CalleeFunc(cl); f != nil && (isTimeMethod("Add")(f) || isTimeMethod("AddDate")(f)) {
+							call = cl
+						}
 					}
 				}
 			}
 			if call == nil {
-				c.R.Unk(rule, key, cfg, p.Pos(blk.Instrs[0].Pos()), "case does not end in Time.Add / Time.AddDate")
+				// not one switch with the operation in each case: prune the function under Scale == this constant
+				if cl, co, ok := intervalCaseFold(add, kv); ok {
+					call, coef = cl, co
+				}
+			}
+			if call == nil {
+				if tbl[kv] == nil {
+					c.R.Bad(rule, key, cfg, p.Pos(add.Pos()), "Interval.Add has no case for this scale")
+				} else {
+					c.R.Unk(rule, key, cfg, p.Pos(tbl[kv].Instrs[0].Pos()), "case does not end in Time.Add / Time.AddDate")
+				}
 				continue
 			}
 			f := core.CalleeFunc(call)
@@ -116,7 +124,7 @@ func runC20(c *Ctx) {
 				continue
 			}
 			if w.op == "Add" {
-				k, uses, ok := coefOfValue(call.Call.Args[1], 0)
+				k, uses, ok := coef(call.Call.Args[1])
 				switch {
 				case !ok || !uses:
 					c.R.Unk(rule, key, cfg, pos, "duration is not constant * value")
@@ -130,7 +138,7 @@ func runC20(c *Ctx) {
 			got := [3]int64{}
 			okAll := true
 			for i := 0; i < 3; i++ {
-				k, uses, ok := coefOfValue(call.Call.Args[1+i], 0)
+				k, uses, ok := coef(call.Call.Args[1+i])
 				if !ok {
 					okAll = false
 					break
@@ -835,7 +843,9 @@ func runC20(c *Ctx) {
 							break
 						}
 						if !lowLimb(src) {
-							if core.DependsOn(src, func(v ssa.Value) bool { return lowLimb(v) || (func() bool { f, ok := v.(*ssa.Field); return ok && isLimbStruct(f.X.Type()) })() }, false) {
+							if core.DependsOn(src, func(v ssa.Value) bool {
+								return lowLimb(v) || (func() bool { f, ok := v.(*ssa.Field); return ok && isLimbStruct(f.X.Type()) })()
+							}, false) {
 								n++
 							}
 							continue
@@ -853,6 +863,8 @@ func runC20(c *Ctx) {
 	}()
 
 	ruleDerivedFields(c, p, "C20.derived")
+	ruleRowUniform(c, p, "C20.row-uniform")
+	ruleTicksOfArgument(c, p, "C20.ticks-of-arg")
 	rulePerElementZone(c, p, "C20.per-element")
 
 	// ---- C20.family
@@ -1389,4 +1401,282 @@ func rulePerElementZone(c *Ctx, p *core.Program, rule string) {
 	}
 	c.R.Count("batch conversions over []time.Time["+cfg+"]", n)
 	c.R.Floor(rule, cfg, n, 3)
+}
+
+// ruleRowUniform (C20): Row(i) of a date/time column converts the raw value, whatever it is.
+func ruleRowUniform(c *Ctx, p *core.Program, rule string) {
+	c.R.Rule(rule, "every value returned by Row(i) of a date/time column (ColDate, ColDate32, ColDateTime, ColDateTime64 and their raw variants) derives from the element type's Time() conversion of the stored element: no exit returns a constant or freshly built time.Time for a particular raw value - raw 0 is 1970-01-01T00:00:00Z, a legitimate instant, not `no value`")
+	cfg := p.Cfg.Name
+	n := 0
+	for _, ct := range columnTypes(p) {
+		name := ct.Obj().Name()
+		if !strings.HasPrefix(name, "ColDate") {
+			continue
+		}
+		fn := methodOf(p, ct, "Row")
+		if fn == nil || fn.Blocks == nil {
+			continue
+		}
+		if res := fn.Signature.Results(); res.Len() != 1 || !core.IsNamed(res.At(0).Type(), "time", "Time") {
+			continue
+		}
+		n++
+		key := name + ".Row"
+		bad := false
+		for _, b := range fn.Blocks {
+			for _, in := range b.Instrs {
+				r, ok := in.(*ssa.Return)
+				if !ok || len(r.Results) != 1 {
+					continue
+				}
+				fromTime := core.DependsOn(r.Results[0], func(x ssa.Value) bool {
+					cl, ok := x.(*ssa.Call)
+					if !ok {
+						return false
+					}
+					f := core.CalleeFunc(cl)
+					return f != nil && f.Name() == "Time" && f.Pkg() != nil && f.Pkg().Path() == core.PkgProto
+				}, true)
+				if !fromTime {
+					bad = true
+					c.R.Bad(rule, key, cfg, p.Pos(r.Pos()), "an exit of Row returns a time that is not the conversion of the stored element: a particular raw value (0) is turned into a sentinel (year 1, UTC) although it is a valid instant of the type's range")
+				}
+			}
+		}
+		if !bad {
+			c.R.Ok(rule, key, cfg, p.Pos(fn.Pos()), "every exit returns the element's Time() conversion")
+		}
+	}
+	c.R.Count("date/time Row methods", n)
+	c.R.Floor(rule, cfg, n, 4)
+}
+
+// ruleTicksOfArgument (C20): conversions to ticks read the instant they were given.
+func ruleTicksOfArgument(c *Ctx, p *core.Program, rule string) {
+	c.R.Rule(rule, "the To* conversions of package proto (ToDateTime64, ToDateTime, ToDate, ToDate32) read Unix() / Nanosecond() / zone of the time.Time they were given, not of a rounded, truncated or shifted copy: ticks are floored - an instant is never stored later than it happened; rounding to the nearest tick moves the upper half of the last tick of a day into the next calendar day")
+	cfg := p.Cfg.Name
+	n := 0
+	for _, name := range []string{"ToDateTime64", "ToDateTime", "ToDate", "ToDate32"} {
+		fn := p.Func(core.PkgProto, name)
+		if fn == nil || fn.Blocks == nil {
+			continue
+		}
+		n++
+		bad := false
+		for f := range core.StaticReach(fn, 1) {
+			if pkgOf(f) == nil || pkgOf(f).Path() != core.PkgProto {
+				continue
+			}
+			for _, call := range core.Calls(f) {
+				cf := core.CalleeFunc(call)
+				if cf == nil || cf.Pkg() == nil || cf.Pkg().Path() != "time" {
+					continue
+				}
+				sig, _ := cf.Type().(*types.Signature)
+				if sig == nil || sig.Recv() == nil || !core.IsNamed(sig.Recv().Type(), "time", "Time") {
+					continue
+				}
+				switch cf.Name() {
+				case "Round", "Truncate", "Add", "AddDate":
+					bad = true
+					c.R.Bad(rule, name, cfg, p.Pos(call.Pos()), sprintf("%s derives the stored value from t.%s(...) instead of t itself: the stored instant can lie later than (or on another day than) the one given", name, cf.Name()))
+				}
+			}
+		}
+		if !bad {
+			c.R.Ok(rule, name, cfg, p.Pos(fn.Pos()), "reads the argument's own Unix()/Nanosecond()/zone")
+		}
+	}
+	c.R.Count("To* conversions", n)
+	c.R.Floor(rule, cfg, n, 3)
+}
+
+// intervalCaseFold: what Interval.Add does for scale constant kv, found by pruning the CFG under Scale == kv
+// (comparisons of the scale - the receiver's field, or the parameter of a helper of IntervalScale - with
+// constants, and the boolean result of such a helper) instead of reading one switch: the single Time.Add /
+// Time.AddDate call that stays reachable, with its arguments reduced to coefficient * Value (phis resolved
+// over the edges that stay feasible, a duration returned by the helper folded to its constant).
+func intervalCaseFold(add *ssa.Function, kv int64) (call *ssa.Call, coef func(v ssa.Value) (int64, bool, bool), ok bool) {
+	isScale := func(fn *ssa.Function, v ssa.Value) bool {
+		v = stripConv(v)
+		if core.FieldOrigin(v, 0) == "Interval.Scale" {
+			return true
+		}
+		if f, isF := v.(*ssa.Field); isF && fieldNameOnly(f.X.Type(), f.Field) == "Scale" {
+			return true
+		}
+		if pr, isP := v.(*ssa.Parameter); isP && fn != add && core.IsNamed(pr.Type(), core.PkgProto, "IntervalScale") {
+			return true
+		}
+		return false
+	}
+	// helper summaries: result constants of a helper of the scale under scale == kv
+	type summary struct {
+		res []*ssa.Const
+	}
+	sums := map[*ssa.Call]*summary{}
+	var atomIn func(fn *ssa.Function) func(cond ssa.Value) int
+	atomIn = func(fn *ssa.Function) func(cond ssa.Value) int {
+		return func(cond ssa.Value) int {
+			if bo, isB := cond.(*ssa.BinOp); isB && (bo.Op == token.EQL || bo.Op == token.NEQ) {
+				var k int64
+				var okc bool
+				switch {
+				case isScale(fn, bo.X):
+					k, okc = core.ConstInt(bo.Y)
+				case isScale(fn, bo.Y):
+					k, okc = core.ConstInt(bo.X)
+				}
+				if okc {
+					if (k == kv) == (bo.Op == token.EQL) {
+						return 1
+					}
+					return 0
+				}
+			}
+			if ex, isE := cond.(*ssa.Extract); isE {
+				if cl, isC := ex.Tuple.(*ssa.Call); isC {
+					if s := sums[cl]; s != nil && ex.Index < len(s.res) && s.res[ex.Index] != nil {
+						if b, isBool := s.res[ex.Index].Value, true; isBool && b != nil {
+							if b.String() == "true" {
+								return 1
+							}
+							if b.String() == "false" {
+								return 0
+							}
+						}
+					}
+				}
+			}
+			return -1
+		}
+	}
+	reachable := func(fn *ssa.Function, filter core.EdgeFilter) map[*ssa.BasicBlock]bool {
+		seen := map[*ssa.BasicBlock]bool{fn.Blocks[0]: true}
+		work := []*ssa.BasicBlock{fn.Blocks[0]}
+		for len(work) > 0 {
+			b := work[len(work)-1]
+			work = work[:len(work)-1]
+			for i, s := range b.Succs {
+				if filter(b, i) && !seen[s] {
+					seen[s] = true
+					work = append(work, s)
+				}
+			}
+		}
+		return seen
+	}
+	for _, c := range core.Calls(add) {
+		cl, isC := c.(*ssa.Call)
+		g := core.StaticFn(c)
+		if !isC || g == nil || g.Blocks == nil || pkgOf(g) == nil || pkgOf(g).Path() != core.PkgProto || len(g.Params) == 0 || !core.IsNamed(g.Params[0].Type(), core.PkgProto, "IntervalScale") {
+			continue
+		}
+		if len(cl.Call.Args) == 0 || !isScale(add, cl.Call.Args[0]) {
+			continue
+		}
+		gr := reachable(g, core.FeasibleUnder(g, atomIn(g)))
+		var rets []*ssa.Return
+		for b := range gr {
+			if r, isR := b.Instrs[len(b.Instrs)-1].(*ssa.Return); isR {
+				rets = append(rets, r)
+			}
+		}
+		if len(rets) != 1 {
+			continue
+		}
+		s := &summary{}
+		for _, rv := range rets[0].Results {
+			k, _ := rv.(*ssa.Const)
+			s.res = append(s.res, k)
+		}
+		sums[cl] = s
+	}
+	filter := core.FeasibleUnder(add, atomIn(add))
+	reach := reachable(add, filter)
+	var calls []*ssa.Call
+	for b := range reach {
+		for _, in := range b.Instrs {
+			if cl, isC := in.(*ssa.Call); isC {
+				if f := core.CalleeFunc(cl); f != nil && (isTimeMethod("Add")(f) || isTimeMethod("AddDate")(f)) {
+					calls = append(calls, cl)
+				}
+			}
+		}
+	}
+	if len(calls) != 1 {
+		return nil, nil, false
+	}
+	var co func(v ssa.Value, d int) (int64, bool, bool)
+	co = func(v ssa.Value, d int) (int64, bool, bool) {
+		if d > 10 {
+			return 0, false, false
+		}
+		if k, isK := core.ConstInt(v); isK {
+			return k, false, true
+		}
+		switch x := v.(type) {
+		case *ssa.Convert:
+			return co(x.X, d+1)
+		case *ssa.ChangeType:
+			return co(x.X, d+1)
+		case *ssa.BinOp:
+			if x.Op == token.MUL {
+				k1, u1, ok1 := co(x.X, d+1)
+				k2, u2, ok2 := co(x.Y, d+1)
+				if ok1 && ok2 && !(u1 && u2) {
+					return k1 * k2, u1 || u2, true
+				}
+			}
+		case *ssa.Phi:
+			var got *[3]interface{}
+			for i, e := range x.Edges {
+				pb := x.Block().Preds[i]
+				if !reach[pb] {
+					continue
+				}
+				feasible := false
+				for j, s := range pb.Succs {
+					if s == x.Block() && filter(pb, j) {
+						feasible = true
+					}
+				}
+				if !feasible {
+					continue
+				}
+				k, u, okk := co(e, d+1)
+				if !okk {
+					return 0, false, false
+				}
+				cur := [3]interface{}{k, u, true}
+				if got != nil && *got != cur {
+					return 0, false, false
+				}
+				got = &cur
+			}
+			if got != nil {
+				return got[0].(int64), got[1].(bool), true
+			}
+		case *ssa.Extract:
+			if cl, isC := x.Tuple.(*ssa.Call); isC {
+				if s := sums[cl]; s != nil && x.Index < len(s.res) && s.res[x.Index] != nil {
+					if k, isK := core.ConstInt(s.res[x.Index]); isK {
+						return k, false, true
+					}
+				}
+			}
+		case *ssa.Field:
+			if fieldNameOnly(x.X.Type(), x.Field) == "Value" {
+				return 1, true, true
+			}
+		case *ssa.UnOp:
+			if x.Op == token.MUL {
+				if fa, isFA := x.X.(*ssa.FieldAddr); isFA && fieldNameOnly(fa.X.Type(), fa.Field) == "Value" {
+					return 1, true, true
+				}
+			}
+		}
+		return 0, false, false
+	}
+	return calls[0], func(v ssa.Value) (int64, bool, bool) { return co(v, 0) }, true
 }
